@@ -219,7 +219,7 @@ func genC07Update(t *rapid.T, pfx string, cur c07Set) C07Update {
 		return C07Update{Kind: "incr", Rules: genDistinctRules(t, pfx, 1, 3, used)}
 	}
 	perm := rapid.Permutation(names).Draw(t, pfx+"rm")
-	return C07Update{Kind: "remove", Remove: perm[:uni(t, pfx+"nrm", 1, len(perm)-1)]}
+	return C07Update{Kind: "remove", Remove: perm[:uni(t, pfx+"nrm", 1, len(perm))]}
 }
 
 func setOf(rules []C08Rule, version int) c07Set {
